@@ -195,7 +195,7 @@ impl Config for Primitives {
     fn run(&self) -> ConfigReport {
         let t0 = std::time::Instant::now();
         crate::crumbs::set_config(&self.label());
-        crate::crumbs::set_replay("{\"primitives\":true}");
+        crate::crumbs::set_replay_unwatched("{\"primitives\":true}");
         let mut rep = ConfigReport { label: self.label(), mode: "enum".into(), exhaustive: true, ..Default::default() };
         match crate::env::catch(|| self.run_all()) {
             Ok(Ok(d)) => {
